@@ -589,3 +589,5 @@ def replay(case):
         return None
     return (f'setter program {[(op, nm, value_repr(x)) for op, nm, x in prog]} on a status-{case["status"]} response '
             f'(observed via {"start_response" if case["via"] == "wsgi" else "headerlist"}): {v[1]}')
+
+MANIFEST['text'] += ' str-subclass values and the Set-Cookie lines of set_cookie (values and attributes above U+00FF; read back by a client-side parser) are covered.'
